@@ -15,7 +15,9 @@ SHORT = {'tb': TB, 'ev': EV, 'hy': HY}
 
 
 def out_attr(typ, kind):
-    """kind 'p' persistent / 'e' event"""
+    """kind 'p' persistent / 'e' event; 'p2' = a second persistent output attribute"""
+    if kind == 'p2':
+        return 'op2' if typ != EV else None
     if typ == TB:
         return 'op' if kind == 'p' else None
     if typ == EV:
@@ -159,6 +161,11 @@ def curated():
     a(mk('fanout_shift2', ['A', 'B', 'C'], {'A': 'tb', 'B': 'tb', 'C': 'tb'}, [('A', 'B', {'k': 2}), ('A', 'C')], tags=['data', 'prune']))
     a(mk('fanout_shift2r', ['A', 'C', 'B'], {'A': 'tb', 'B': 'tb', 'C': 'tb'}, [('A', 'B', {'k': 2}), ('A', 'C')], tags=['data', 'prune']))
     # --- multi-edges between one pair with different delays
+    # two different persistent outputs of one simulator, time-shifted by different amounts (initial data at different cache times)
+    a(mk('multi_attr2', ['A', 'B'], {'A': 'tb', 'B': 'tb'}, [('A', 'B', {'k': 1}), ('A', 'B', {'o': 'p2', 'i': 'm2', 'k': 2})], tags=['data', 'multi']))
+    a(mk('multi_attr2r', ['A', 'B'], {'A': 'tb', 'B': 'tb'}, [('A', 'B', {'k': 2}), ('A', 'B', {'o': 'p2', 'i': 'm2', 'k': 1})], tags=['data', 'multi']))
+    a(mk('fanout_attr2', ['A', 'B', 'C'], {'A': 'tb', 'B': 'tb', 'C': 'hy'}, [('A', 'B', {'k': 1}), ('A', 'C', {'o': 'p2', 'i': 'm', 'k': 2})],
+         tags=['data', 'multi']))
     a(mk('multi_shift', ['A', 'B'], {'A': 'ev', 'B': 'ev'}, [('A', 'B'), ('A', 'B', {'k': 2, 'i': 't2'})], init={'A': 0}, tags=['multi', 'trigger']))
     a(mk('multi_shift_rev', ['A', 'B'], {'A': 'ev', 'B': 'ev'}, [('A', 'B', {'k': 2}), ('A', 'B', {'i': 't2'})], init={'A': 0}, tags=['multi', 'trigger']))
     a(mk('multi_shift_sym', ['A', 'B'], {'A': 'hy', 'B': 'hy'}, [('A', 'B'), ('A', 'B', {'k': 'sym', 'i': 't2'})], tags=['multi', 'trigger', 'nocache']))
